@@ -4,8 +4,8 @@ INVARIANT AlwaysConsistent
 PROPERTY ImmutableKept
 CHECK_DEADLOCK FALSE
 CONSTANTS
-  Kind = "subscriber"
-  Values <- MCValues
+  Kind = "topic"
+  Values <- MCFewValues
   CanBeDisabled <- MCCanBeDisabled
   MaxOps = 4
-  DefaultValues <- MCNoDefaults
+  DefaultValues <- MCDefaultValues
